@@ -8,9 +8,8 @@ git -C /repo worktree add -q --detach $WT HEAD || exit 9
 git -C $WT apply /verif/seeded-benign/$BID/patch.diff || { git -C /repo worktree remove --force $WT; exit 8; }
 for P in "$@"; do
   LOG=/tmp/benign-$BID-$P.log
-  VERIF_REPO=$WT ./check $P > $LOG 2>&1; rc=$?
+  VERIF_EVIDENCE_DIR=/tmp/seed-evidence VERIF_REPO=$WT ./check $P > $LOG 2>&1; rc=$?
   echo "$BID [$P]: exit=$rc $(grep -c '^VIOLATION' $LOG) violation lines; $(tail -1 $LOG | cut -c1-200)"
   grep -m3 -A1 '^VIOLATION' $LOG | cut -c1-300
-  git -C /verif checkout -- evidence/$P.json 2>/dev/null
 done
 git -C /repo worktree remove --force $WT
